@@ -357,7 +357,12 @@ func (o *Operator) handleCheckpointBarrier(ctx context.Context, senderID string,
 	}
 
 	if o.checkpoint.hasAllBarriers() {
-		o.processEventBatch(ctx, batching.CurrentBatch) // Must flush any pending events before checkpointing
+		// Must flush any pending events before checkpointing. When that flush
+		// fails the pending events were not applied: cutting a checkpoint now
+		// would report a checkpoint that misses them.
+		if err := o.processEventBatch(ctx, batching.CurrentBatch); err != nil {
+			return err
+		}
 		cp, err := o.db.Checkpoint(o.checkpoint.checkpointID)()
 		if err != nil {
 			return err
